@@ -64,6 +64,7 @@ Definition run_c01 (x : sx) : sx :=
       SL (sx_meta (denote_id rs) (denote_remarks rs) (denote_cell rs)
                   (match denote_sg rs with Some sg => Symmetry_of sg | None => None end)
                   (denote_scale rs) (denote_origx rs) (denote_mtrix rs) ++ [sx_of_pdb sx_of_atom (denote_models rs)])%list
+  | SL (SY "accept" :: _) => SY "accepted"
   | SL (SY "corrupt" :: _) => SY "rejected"
   | SL (SY "total" :: _) => SL [SY "classified"; SY "t"; SY "t"]
   | SL (SY "classify" :: _) => SY "none"
